@@ -17,28 +17,28 @@ E3 = "stateless exploration of all interleavings of two actors at storage-operat
 
 CHECKS = {
  'C01': dict(cat='model_checking', tech=E1I, eng='E1-inputs', ref='DESIGN.md 4/C01',
-   text="Every (tree, options) input of three complete sweeps - layout (all entry sequences over 13 size/kind classes x 24 option points, with distinct, duplicate and block-aligned contents so that one block is reached through the large-file path and the small-file combiner), structure (all tree shapes over a names menu with bytes below and above '/', multi-byte, leading dot), metadata (all 4096 modes on files and directories, an mtime menu with pre-epoch and sub-second values, an owner/group menu, exotic names, a tree of 10 030 entries written one per hunk) - is backed up and restored by the real code and compared with the tree model through lstat/readlink/read. A sub-sweep drives the same operations through the tool's own command-line front end (src/bin/conserve.rs compiled next to the harness).",
+   text="Every (tree, options) input of three complete sweeps - layout (all entry sequences over 13 size/kind classes x 24 option points, with distinct, duplicate and block-aligned contents so that one block is reached through the large-file path and the small-file combiner), structure (all tree shapes over a names menu with bytes below and above '/', multi-byte, leading dot), metadata (all 4096 modes on files and directories, an mtime menu with pre-epoch and sub-second values, an owner/group menu, exotic names, a tree of 10 030 entries written one per hunk, one input per size threshold visible in the code: incompressible files above 2 MiB, a file just above the 20 MiB block size, files around the 1 MiB small-file threshold, 300 one-block files, all-zero files of several lengths) - is backed up and restored by the real code and compared with the tree model through lstat/readlink/read. A sub-sweep drives the same operations through the tool's own command-line front end (src/bin/conserve.rs compiled next to the harness).",
    note="Runs as root on tmpfs. The three sweeps are each exhaustive within their bound; cross products between them are covered diagonally. Bounds: sequences <= 2 (quick) / 4 (thorough) entries, trees <= 3 / 4 nodes."),
  'C02': dict(cat='model_checking', tech=E1H, eng='E1-histories', ref='DESIGN.md 4/C02',
-   text="Breadth-first search over histories of {source-slot change + backup(P|Q), backup killed at a storage operation, delete, gc} from four seed archives; after every archive event every live complete version is restored and compared with the tree model and 'latest complete' is resolved. Exhaustive to the stated depth, so it covers orders of events no fixture samples.",
+   text="Breadth-first search over histories of {source-slot change + backup(P|Q), backup killed at a storage operation, delete, gc} from four seed archives; after every archive event every live complete version is restored and compared with the tree model and 'latest complete' is resolved. Exhaustive to the stated depth, so it covers orders of events no fixture samples. Plus: the latest complete version among hand-written versions at ids 8-10, 98-100, 9998-10000 for every completeness pattern.",
    note="Trusts the tree model (materialize/observe on tmpfs as root) and the masking of start/end timestamps in state keys; bounded depth (quick 2, thorough 3) and a 4-slot source universe."),
  'C03': dict(cat='fault_enumeration', tech=E2C, eng='E2-crash', ref='DESIGN.md 4/C03',
-   text="For eleven scenarios (thorough: plus every history state to depth 2) the backup is stopped before every mutating storage operation and, for every write, also with the target left as an empty file; each crashed archive is judged on eight clauses (opens, old versions exact, latest complete version still found, no dangling reference by the independent reader, stitched listing/restore of the interrupted version, follow-up backup exact, any band with a tail exact, no error report from a clean interruption).",
+   text="For twelve scenarios (one with block files above 2 MiB) (thorough: plus every history state to depth 2) the backup is stopped before every mutating storage operation and, for every write, also with the target left as an empty file; each crashed archive is judged on eight clauses (opens, old versions exact, latest complete version still found, no dangling reference by the independent reader, stitched listing/restore of the interrupted version, follow-up backup exact, any band with a tail exact, no error report from a clean interruption).",
    note="Crash granularity is one storage operation plus the empty-file leftover; torn contents and partial remove_dir_all are not modelled. Trusts the independent format-0.6 reader."),
  'C04': dict(cat='fault_enumeration', tech=E2F, eng='E2-fault', ref='DESIGN.md 4/C04',
-   text="Every operation of the backup's storage trace (reads included) fails with each of four error kinds, plus a storage outage from every point on, plus all fault pairs (deviation bound 2); the independent reader then compares every recorded file entry with the source bytes and the success/error reporting is judged.",
-   note="Faults are injected at the transport seam (operation not executed). Bound: two faults per run; scenarios with tiny blocks so combined-block flushes happen mid-run."),
+   text="Every operation of the backup's storage trace (reads included) fails with each of four error kinds, plus a storage outage from every point on, plus all fault pairs (deviation bound 2); the independent reader then compares every recorded file entry with the source bytes and the success/error reporting is judged. A sub-sweep through the tool's own command line runs backups under a file-size limit (ulimit -f with SIGXFSZ ignored) so that every write beyond 0, 1 and 64 KiB fails part way with a real EFBIG, with and without zero-length leftovers of the big blocks.",
+   note="Faults are injected at the transport seam (operation not executed); writes that fail part way are produced below it by the operating system. Bound: two faults per run; scenarios with tiny blocks so combined-block flushes happen mid-run."),
  'C05': dict(cat='model_checking', tech=E1H + "; plus crash/fault enumeration of each delete trace", eng='E1-histories+E2', ref='DESIGN.md 4/C05',
-   text="Every archive state of the history graph x every subset of its versions x {dry-run, real} is executed and judged (versions gone, every version still present - requested or not - exact, reference scan, no garbage left, op log), plus deletes naming a version that does not exist; for seed states (thorough: depth 1) every crash point of the delete trace under all block-deletion orders and every failing read/list/metadata operation is executed too. A sub-sweep drives the same operations through the tool's own command-line front end (src/bin/conserve.rs compiled next to the harness).",
+   text="Every archive state of the history graph x every subset of its versions x {dry-run, real} is executed and judged (versions gone, every version still present - requested or not - exact, reference scan, no garbage left, op log), plus deletes naming a version that does not exist, plus a twelve-version history (band ids with every digit) with single versions, prefixes and nothing deleted; for seed states (thorough: depth 1) every crash point of the delete trace under all block-deletion orders and every failing read/list/metadata operation is executed too. A sub-sweep drives the same operations through the tool's own command-line front end (src/bin/conserve.rs compiled next to the harness).",
    note="remove_dir_all is one step. A refusing delete is legal. Bounded depth (quick 1, thorough 2)."),
  'C06': dict(cat='model_checking', tech=E3, eng='E3-interleavings', ref='DESIGN.md 4/C06',
    text="All interleavings of one backup and one gc/delete over an archive holding garbage that reappears in the source are explored (full product of the two traces, no preemption bound needed); at every terminal state every complete band must have all its blocks and restore exactly.",
    note="Two actors; one storage operation is one atomic step; actors are deterministic functions of their observations (state key = archive bytes + per-actor observation history + pending op)."),
  'C07': dict(cat='model_checking', tech=E1H + "; " + E3, eng='E1-histories+E3', ref='DESIGN.md 4/C07',
-   text="The operation log and before/after snapshots of every backup (complete or interrupted), delete and gc event of the history graph are judged for write-once behaviour, and all interleavings of two backups of different sources are explored for band sharing, replaced files and double success.",
+   text="The operation log and before/after snapshots of every backup (complete or interrupted), delete and gc event of the history graph are judged for write-once behaviour, and all interleavings of two backups of different sources are explored for band sharing, replaced files and double success. Plus real backups onto hand-written archives whose newest id is 9, 99, 999, 9999, 10000 or 10009 (also as a head-less directory): the new id must be above, existing files untouched.",
    note="History depth 2 (quick) / 3 (thorough); race: two actors, full product."),
  'C08': dict(cat='model_checking', tech=E1I, eng='E1-inputs', ref='DESIGN.md 4/C08',
-   text="Every arrangement of up to 3 (thorough 4) versions, each absent / head-less / with an empty head / complete / incomplete with every subset of a path alphabet and every split of the entries into hunks, plus one version with an empty hunk at every position, is written by an independent writer; every version is listed under every subtree/exclusion filter by the real code and compared with a reference stitch function written from the statement (content, provenance, strict order, termination). A sub-sweep drives the same operations through the tool's own command-line front end (src/bin/conserve.rs compiled next to the harness).",
+   text="Every arrangement of up to 3 (thorough 4) versions, each absent / head-less / with an empty head / complete / incomplete with every subset of a path alphabet and every split of the entries into hunks, plus one version with an empty hunk at every position, plus all arrangements again at band ids 8-10, 98-100 and 9998-10000, is written by an independent writer; every version is listed under every subtree/exclusion filter by the real code and compared with a reference stitch function written from the statement (content, provenance, strict order, termination). A sub-sweep drives the same operations through the tool's own command-line front end (src/bin/conserve.rs compiled next to the harness).",
    note="Independent writer and reader (raw snappy + serde_json); 3-4 paths whose apath order differs from string order; watchdog for non-termination."),
  'C09': dict(cat='model_checking', tech=E1H + "; plus exhaustive damage enumeration at rest", eng='E1-histories+E2-damage', ref='DESIGN.md 4/C09',
    text="Healthy side: full and quick validate on every state of the history graph whose bands all have heads must be silent. Damage side: every file of three archives x {delete, truncate 0, truncate half, garbage} and every (quick: every 8th) single-bit flip of every block; whenever any version's restore outcome changes, validate must report. A sub-sweep drives the same operations through the tool's own command-line front end (src/bin/conserve.rs compiled next to the harness).",
@@ -47,7 +47,7 @@ CHECKS = {
    text="Every file except the archive header of three archives x {delete, truncate 0, truncate half, garbage} and every (quick: every 8th) single-bit flip of every file; versions, list and restore of every band, validate (full, quick), a new backup and its restore run on each; no panic or hang, untouched files exact, lost files reported, backup after delete/empty damage exact.",
    note="In-process watchdog reports hangs as violations. A flipped hunk that still decodes is judged on no-crash and untouched files only."),
  'C11': dict(cat='model_checking', tech=E1I, eng='E1-inputs', ref='DESIGN.md 4/C11',
-   text="Validity on every string over a 10-component alphabet to length 4 (three slash variants), comparison on every ordered pair (2.4M) and triple (17M) of valid paths against an independent comparator and validator, subtree contiguity on the sorted list, and on every tree shape over the names menu: source-walk order, index and listing order under two block layouts, and the stitched listing of a second version killed after each hunk.",
+   text="Validity on every string over a 10-component alphabet to length 4 (three slash variants), comparison on every ordered pair (2.4M) and triple (17M) of valid paths against an independent comparator and validator, subtree contiguity on the sorted list, and on every tree shape over the names menu: source-walk order, index and listing order under two block layouts, and the stitched listing of a second version killed after each hunk. Two fixed larger trees (prefix-named sibling directories three levels deep) are walked, backed up and listed under four hunk sizes.",
    note="The documented order is read component-wise as the statement spells out. Depth <= 4 components."),
  'C12': dict(cat='model_checking', tech=E1I, eng='E1-inputs', ref='DESIGN.md 4/C12',
    text="Every tree shape over prefix-colliding and multi-byte names is backed up; every entry, every top-level name and two missing paths are listed as subtree and compared with the component-prefix rule; every directory is restored as subtree and compared with the full restore; the same for interrupted versions (for every entry, a second backup without it killed after each hunk, listed and restored by subtree against its own full listing/restore). A sub-sweep drives the same operations through the tool's own command-line front end (src/bin/conserve.rs compiled next to the harness).",
@@ -68,7 +68,7 @@ CHECKS = {
    text="Every backup/delete/gc transition of the history graph is re-executed from the same parent snapshot on multi-thread runtimes with 2 and 8 workers, with reversed block-deletion order and on a runtime that ends the moment the operation returns, and the archives compared byte for byte modulo the two timestamps; state riders replay partially failing multi-version deletes, the next backup and gc with each directory listing (thorough: each read) failing under two forced completion orders, and refused operations on an archive holding someone else's lock.",
    note="Inductive argument over the history; depth 2 (quick) / 3 (thorough). Completion orders of concurrent reads are forced (failure first on the current-thread runtime, failure delayed on two workers), other multi-thread schedules are whatever tokio does."),
  'C18': dict(cat='model_checking', tech=E1I, eng='E1-inputs', ref='DESIGN.md 4/C18',
-   text="Three base trees (incl. prefix-named sibling directories and half-named owners) x every set of at most 3 (thorough 4) mutations from a menu of 21: diff with and without include_unchanged and the next backup's change callback are compared with the difference of the two tree models. A sub-sweep drives the same operations through the tool's own command-line front end (src/bin/conserve.rs compiled next to the harness).",
+   text="Three base trees (incl. prefix-named sibling directories and half-named owners) x every set of at most 3 (thorough 4) mutations from a menu of 23: diff with and without include_unchanged and the next backup's change callback are compared with the difference of the two tree models. A sub-sweep drives the same operations through the tool's own command-line front end (src/bin/conserve.rs compiled next to the harness).",
    note="Change callback compared on paths that are regular files (in the new tree for added/changed, in the old one for deleted); directory mtimes are not a change."),
 }
 
